@@ -162,6 +162,7 @@ def record(args):
                 if ms == 2:
                     X = X + rng.integers(-2, 3, size=(n, p)) / 8.0
                 s0 = float(rng.choice([0.1, 0.5, 1.0]))
+                reused = bool(rng.integers(0, 2))
                 # a third of the runs tune the threshold: the quantile of the training scores often IS one of them
                 scales = [None, None] if rng.integers(0, 3) == 0 else [s0, 2 * s0]
                 level = float(rng.choice([0.05, 0.2, 0.25, 0.5]))
@@ -174,7 +175,16 @@ def record(args):
                 if sc_ is None and dets:   # the higher threshold of a tuned pair
                     sc_ = 1.5 * float(dets[0][0].threshold_) / default + 0.01
                 det = Det(**{kw: mk()}, threshold_scale=sc_, min_segment_length=m, max_interval_length=L,
-                          growth_factor=g, **({} if r1 else {"level": level})).fit(Xin)
+                          growth_factor=g, **({} if r1 else {"level": level}))
+                if not r1 and reused:
+                    # the same detector object has already been used on OTHER data (another length, other values):
+                    # what it reports for X must not depend on that
+                    X0 = lattice_data(np.random.default_rng(seed * 1000 + i), n + 3, p, kind=2) + 0.125
+                    try:
+                        det.fit(X0).predict(X0)
+                    except RuntimeError:
+                        pass
+                det.fit(Xin)
                 y = det.predict(Xin)
                 dets.append((det, y))
             det, y = dets[0]
